@@ -3,6 +3,7 @@
 SUT: RemoteNode.sdo (SdoClient, ReadableStream, WritableStream, open, upload,
 download, SdoVariable.data/.open).  Peer: strict RefSdoServer on an inline hub.
 """
+import copy
 import math
 
 from hypothesis import strategies as st
@@ -31,13 +32,23 @@ RULE = ("case = dictionary of the client + history of 1..6 transfers on one clie
         "10-transfer histories over neighbouring sub-indices of one index in both orders. Hypothesis adds "
         "random histories with boundary lengths (7k+-1, 889+-1, 1023..1025) and a log-uniform tail, one "
         "stream with the original classes and one (salt 1) with the added address/style/content classes. "
+        "Reconfigured histories: between two transfers the client's dictionary is edited through its public "
+        "API (data_type of a VAR / listed member assigned; add_object of a new or replacing object; "
+        "add_member of a new or replacing member; del od[index] / del record[sub]) and the next transfers "
+        "are judged by the declaration in force when they are made: enumerated upload - edit - upload "
+        "(also with other transfers in between, and there-and-back) for every pair of declarations that "
+        "cut an upload to a different number of bytes (quick: one type per width + not declared + string + "
+        "DOMAIN; thorough: all types) x VAR / record member / array member 1 / array member through the "
+        "template x every way of making that change x upload()/.data; a third Hypothesis stream (salt 100) "
+        "draws 3..9 transfers and edits over <= 3 indices x <= 4 sub-indices so that addresses repeat. "
         "Oracle: strict CiA 301 reference server validates every request frame, holds the bytes and must "
         "be idle again when the call returns; a download commits exactly the payload once; an upload "
         "returns exactly the held bytes - for an entry declared as BOOLEAN/number: the declared number of "
         "leading bytes through upload()/.data, either that or all bytes through open() (the statement "
         "does not say where the cut happens); for (VAR index, sub > 0): all bytes or the VAR's declared "
         "number of leading bytes (both readings of 'declared' accepted); never an exception. "
-        "Non-trivial = at least one segment frame or a length in {0,1,4,5,7,8}; "
+        "Non-trivial = at least one segment frame or a length in {0,1,4,5,7,8}, or a transfer at an index "
+        "whose dictionary entry an earlier edit of the history touched; "
         "distinct = canonical JSON of the case.")
 ASSUMPTIONS = [
     "raw (buffering=0) streams move at most one segment per call, as documented; the harness honours "
@@ -49,6 +60,11 @@ ASSUMPTIONS = [
     "every read through the file-like interface goes on until the stream reports end of data (b''/''), "
     "so a conformant client has fetched the segment that carries c=1 when the call sequence ends",
     "arrays in the client dictionary declare sub 0 and member 1; records declare sub 0",
+    "'the object dictionary declares' refers to the client's dictionary as it is when the transfer is "
+    "made; it is only edited between transfers, from the calling thread, through ObjectDictionary."
+    "add_object / __delitem__, ODRecord/ODArray.add_member, ODRecord.__delitem__ and the data_type attribute",
+    "time-outs, late or duplicated responses are not generated here (an undisturbed conformant server "
+    "answers every request once, in time); what follows a disturbed transfer is C07's subject",
 ]
 BUDGET = {"quick": 150, "thorough": 400}
 
@@ -296,11 +312,12 @@ def _read_loop(fp, reads, empty, D, tag):
             raise RuntimeError("read loop does not terminate")
 
 
-def run_case(case) -> Outcome:
-    rig = Rig(case["od"])
+# ---- the client's dictionary changes between two transfers (public dictionary API) ------------
+def _decl_maps(spec):
+    """(index, sub) -> declared data type, and index -> data type of a VAR object, for a dictionary spec."""
     decl = {}
     vardt = {}
-    for o in case["od"]:
+    for o in spec:
         if o["kind"] == "var":
             decl[(o["index"], 0)] = o["dt"]
             vardt[o["index"]] = o["dt"]
@@ -312,10 +329,84 @@ def run_case(case) -> Outcome:
                 tmpl = [m for m in o["members"] if m["sub"] == 1][0]
                 for sub in range(1, 256):
                     decl.setdefault((o["index"], sub), tmpl["dt"])
+    return decl, vardt
+
+
+def apply_edit(spec, e):
+    """Reference model of one dictionary edit: returns the new spec (the old one is left alone).
+    edit = retype (data_type of a VAR / of a listed member assigned) | add (add_object: a new object, or
+    one that replaces the object at that index) | add_member (record/array add_member: new or replacing)
+    | del (del od[index] / del record[sub])."""
+    spec = copy.deepcopy(spec)
+    kind, index = e["edit"], e["index"]
+    if kind == "add":
+        return [o for o in spec if o["index"] != index] + [copy.deepcopy(e["obj"])]
+    objs = [o for o in spec if o["index"] == index]
+    if len(objs) != 1:
+        raise RuntimeError(f"dictionary edit {e} addresses an object that is not in the dictionary")
+    o = objs[0]
+    if kind == "del" and e.get("sub") is None:
+        return [p for p in spec if p["index"] != index]
+    if kind == "retype" and o["kind"] == "var":
+        o["dt"] = e["dt"]
+        return spec
+    if o["kind"] == "var":
+        raise RuntimeError(f"dictionary edit {e} addresses a member of a VAR object")
+    if kind == "add_member":
+        o["members"] = sorted([m for m in o["members"] if m["sub"] != e["member"]["sub"]]
+                              + [copy.deepcopy(e["member"])], key=lambda m: m["sub"])
+        return spec
+    hit = [m for m in o["members"] if m["sub"] == e["sub"]]
+    if len(hit) != 1:
+        raise RuntimeError(f"dictionary edit {e} addresses a member that is not listed")
+    if kind == "retype":
+        hit[0]["dt"] = e["dt"]
+    elif kind == "del" and o["kind"] == "record":
+        o["members"] = [m for m in o["members"] if m["sub"] != e["sub"]]
+    else:
+        raise RuntimeError(f"unknown dictionary edit {e}")
+    return spec
+
+
+def _edit_real(od, e):
+    """The same edit on the client's ObjectDictionary, through its public API only."""
+    from harness.odutil import build_var
+    kind, index = e["edit"], e["index"]
+    if kind == "add":
+        od.add_object(build_od([e["obj"]])[index])
+    elif kind == "del":
+        if e.get("sub") is None:
+            del od[index]
+        else:
+            del od[index][e["sub"]]
+    elif kind == "retype":
+        obj = od[index]
+        if hasattr(obj, "subindices"):
+            obj = obj.subindices[e["sub"]]          # the listed member itself (an array makes copies for the rest)
+        obj.data_type = e["dt"]
+    elif kind == "add_member":
+        od[index].add_member(build_var(e["member"], index, e["member"]["sub"]))
+    else:
+        raise RuntimeError(f"unknown dictionary edit {e}")
+
+
+def run_case(case) -> Outcome:
+    rig = Rig(case["od"])
+    spec = case["od"]
+    decl, vardt = _decl_maps(spec)
+    edited = set()              # indices whose declaration an edit has touched so far
     D = []
     nontrivial = False
     klass = []
     for k, x in enumerate(case["xfers"]):
+        if x["op"] == "od":
+            # the dictionary changes between two transfers; from here on the new declaration counts
+            spec = apply_edit(spec, x)
+            _edit_real(rig.client.od, x)
+            decl, vardt = _decl_maps(spec)
+            edited.add(x["index"])
+            klass.append("od/" + x["edit"])
+            continue
         tag = f"transfer {k} ({x['op']}/{x['route']} {x['index']:04x}:{x['sub']:02x} len {len(x['data'])})"
         nreq = len(rig.server.requests)
         nerr = len(rig.server.errors)
@@ -340,17 +431,22 @@ def run_case(case) -> Outcome:
             rig.server._reset()
         nframes = len(rig.server.requests) - nreq
         ln = len(x["data"])
-        if nframes > 1 or ln in (0, 1, 4, 5, 7, 8):
+        if nframes > 1 or ln in (0, 1, 4, 5, 7, 8) or x["index"] in edited:
             nontrivial = True
         klass.append(f"{x['op']}/{x['route']}/{_lenclass(ln)}"
                      + ("/b%s" % _bufclass(x["buffering"]) if "buffering" in x else "")
                      + ("/" + x["style"] if x["op"] == "ul" else "")
                      + ("/emptylast" if x.get("empty_last") else "")
-                     + _addrclass(case["od"], x["index"], x["sub"])
+                     + _addrclass(spec, x["index"], x["sub"])
                      + ("/sized" if x.get("size_decl") else ""))
         if D:
             break
-    kl = klass[0] if len(klass) == 1 else f"history{len(case['xfers'])}"
+    nedits = sum(1 for x in case["xfers"] if x["op"] == "od")
+    if nedits:
+        kl = (f"reconf/{min(len(case['xfers']) - nedits, 6)}xfers/"
+              + "+".join(sorted({x["edit"] for x in case["xfers"] if x["op"] == "od"})))
+    else:
+        kl = klass[0] if len(klass) == 1 else f"history{len(case['xfers'])}"
     return Outcome(nontrivial, kl, D)
 
 
@@ -644,6 +740,108 @@ def enum_cases(full=False):
                                              "toplevel": not rot % 2}]}
 
 
+# ---- histories in which the client's dictionary is edited between transfers at one address ----
+PROBE = {"var": (0x2400, 0), "recm": (0x2401, 3), "arr1": (0x2402, 1), "arrt": (0x2403, 0x21)}
+OTHER = (0x2410, 0)
+
+
+def _wclass(dt):
+    """number of bytes an upload is cut to under this declaration (None: not cut)"""
+    return rc.width(dt) // 8 if dt in FIXED else None
+
+
+def _probe_obj(shape, dt, gen):
+    """the dictionary object that declares the probe address of `shape` with type dt (dt None: the object
+    is there - except for a VAR - but the probe address is not declared)"""
+    index = PROBE[shape][0]
+    if shape == "var":
+        return {"kind": "var", "index": index, "name": f"v{gen}", "dt": dt}
+    if shape == "recm":
+        return {"kind": "record", "index": index, "name": f"r{gen}", "members": [
+            {"sub": 0, "name": "n", "dt": rc.UNSIGNED8}, {"sub": 1, "name": "a", "dt": rc.UNSIGNED16}]
+            + ([{"sub": 3, "name": f"m{gen}", "dt": dt}] if dt is not None else [])}
+    return {"kind": "array", "index": index, "name": f"a{gen}", "members": [
+        {"sub": 0, "name": "n", "dt": rc.UNSIGNED8}, {"sub": 1, "name": f"el{gen}", "dt": dt}]}
+
+
+def _ways(shape, a, b, gen):
+    """every public-API edit that takes the declaration of the probe address from type a to type b
+    (None = not declared); the last one always works whatever was done before (whole object / delete)."""
+    index, sub = PROBE[shape]
+    add = {"op": "od", "edit": "add", "index": index, "obj": _probe_obj(shape, b, gen)}
+    if shape == "var":
+        if a is None:
+            return [add]
+        if b is None:
+            return [{"op": "od", "edit": "del", "index": index, "sub": None}]
+        return [{"op": "od", "edit": "retype", "index": index, "sub": 0, "dt": b}, add]
+    if shape == "recm":
+        member = {"op": "od", "edit": "add_member", "index": index,
+                  "member": {"sub": sub, "name": f"m{gen}", "dt": b}}
+        if a is None:
+            return [member, add]
+        if b is None:
+            return [{"op": "od", "edit": "del", "index": index, "sub": sub}, add]
+        return [{"op": "od", "edit": "retype", "index": index, "sub": sub, "dt": b}, member, add]
+    # arrays: the probe is member 1 itself, or a member that exists only through the template of member 1
+    return [{"op": "od", "edit": "retype", "index": index, "sub": 1, "dt": b},
+            {"op": "od", "edit": "add_member", "index": index,
+             "member": {"sub": sub, "name": f"el{gen}", "dt": b}},
+            add]
+
+
+def reconf_cases(full=False):
+    """upload(address) - the declaration of that address changes - upload(address) again, and longer
+    forms; for every pair of declarations that cut an upload differently, for every shape of entry and
+    every public way of changing the declaration."""
+    types = [None] + list(rc.ALL_TYPES) if full else \
+        [None, rc.BOOLEAN, rc.UNSIGNED8, rc.INTEGER16, rc.UNSIGNED24, rc.INTEGER32, rc.REAL32, rc.UNSIGNED40,
+         rc.INTEGER48, rc.UNSIGNED56, rc.UNSIGNED64, rc.REAL64, rc.VISIBLE_STRING, rc.DOMAIN]
+    rot = 0
+    for a in types:
+        for b in types:
+            if a == b or _wclass(a) == _wclass(b):
+                continue            # same number of bytes before and after: nothing to tell apart
+            low = min(w for w in (_wclass(a), _wclass(b)) if w is not None)
+            for shape in PROBE:
+                if shape.startswith("arr") and (a is None or b is None):
+                    continue        # an array always describes all its members
+                index, sub = PROBE[shape]
+                od = [{"kind": "var", "index": OTHER[0], "name": "other", "dt": rc.UNSIGNED16}]
+                if not (shape == "var" and a is None):
+                    od.append(_probe_obj(shape, a, 0))
+                ways = _ways(shape, a, b, 1)
+                forms = (0, 1, 2)
+                for wi, way in enumerate(ways):
+                    rot += 1
+                    for form in (forms if full else [rot % 3]):
+                        for vroute in (("upload", "var_data") if full else [("upload", "var_data")[(rot // 3) % 2]]):
+                            lens = [n for n in (4, 8, 9, 12) if n > low]
+                            n = lens[rot % len(lens)]
+                            sty = styles_for(n)
+
+                            def ul(k, dt_now):
+                                x = {"op": "ul", "index": index, "sub": sub, "data": _payload(n, rot + k),
+                                     "style": sty[(rot + k) % len(sty)],
+                                     "route": vroute if dt_now is not None else "upload"}
+                                if x["route"] == "var_data":
+                                    x["toplevel"] = shape == "var"
+                                return x
+                            xf = [ul(0, a), way, ul(1, b)]
+                            if form == 1:
+                                # other transfers between the edit and the second upload
+                                xf = [ul(0, a), way,
+                                      {"op": "ul", "index": OTHER[0], "sub": 0, "data": _payload(n, rot + 2),
+                                       "style": sty[rot % len(sty)], "route": "upload"},
+                                      {"op": "dl", "index": index, "sub": sub, "data": _payload(n, rot + 3),
+                                       "route": "download", "force": bool(rot % 2)},
+                                      ul(1, b), ul(4, b)]
+                            elif form == 2:
+                                # ... and back again
+                                xf += [_ways(shape, b, a, 2)[-1], ul(2, a)]
+                            yield {"od": od, "xfers": xf}
+
+
 def lengths(max_len):
     boundary = sorted({7 * k + d for k in range(1, 20) for d in (-1, 0, 1)} |
                       {888, 889, 890, 1023, 1024, 1025, 8191, 8192, 8193} | set(range(0, 10)))
@@ -782,8 +980,104 @@ def history(draw, max_len, wide=False):
     return {"od": od, "xfers": xfers}
 
 
+@st.composite
+def reconf_history(draw, max_len):
+    """3..9 operations on one client: transfers at a handful of addresses (so that addresses repeat) and, in
+    between, edits of the client's dictionary through its public API that change what it declares there."""
+    dts = list(rc.ALL_TYPES)
+    dt_st = st.sampled_from(dts)
+    pool = sorted(draw(st.sets(st.integers(0x1000, 0xFFFF).filter(lambda v: not 0x1400 <= v <= 0x1BFF),
+                               min_size=1, max_size=3)))
+    subs = sorted({0, 1} | draw(st.sets(st.integers(2, 255), min_size=1, max_size=2)))
+    gen = [0]
+
+    def new_obj(index):
+        gen[0] += 1
+        g = gen[0]
+        shape = draw(st.integers(0, 3))
+        if shape <= 1:
+            return {"kind": "var", "index": index, "name": f"v{g}", "dt": draw(dt_st)}
+        if shape == 2:
+            return {"kind": "array", "index": index, "name": f"a{g}", "members": [
+                {"sub": 0, "name": f"n{g}", "dt": rc.UNSIGNED8}, {"sub": 1, "name": f"el{g}", "dt": draw(dt_st)}]}
+        listed = sorted(draw(st.sets(st.sampled_from(subs[1:]), max_size=len(subs) - 1)))
+        return {"kind": "record", "index": index, "name": f"r{g}", "members":
+                [{"sub": 0, "name": f"n{g}", "dt": rc.UNSIGNED8}] +
+                [{"sub": s, "name": f"m{g}_{s}", "dt": draw(dt_st)} for s in listed]}
+
+    spec = [new_obj(i) for i in pool if draw(st.integers(0, 3))]
+    od0 = copy.deepcopy(spec)
+    ops = []
+    for _ in range(draw(st.integers(3, 9))):
+        if draw(st.integers(0, 2)) == 0:
+            kinds = ["add"]
+            if spec:
+                kinds += ["retype", "retype", "del"]
+            if any(o["kind"] != "var" for o in spec):
+                kinds.append("add_member")
+            kind = draw(st.sampled_from(kinds))
+            if kind == "add":
+                index = draw(st.sampled_from(pool))
+                e = {"op": "od", "edit": "add", "index": index, "obj": new_obj(index)}
+            elif kind == "add_member":
+                o = draw(st.sampled_from([o for o in spec if o["kind"] != "var"]))
+                gen[0] += 1
+                sub = draw(st.sampled_from(subs))
+                e = {"op": "od", "edit": "add_member", "index": o["index"],
+                     "member": {"sub": sub, "name": f"m{gen[0]}_{sub}", "dt": draw(dt_st)}}
+            else:
+                o = draw(st.sampled_from(spec))
+                if o["kind"] != "var" and not o["members"]:
+                    kind = "del"                    # a record emptied by earlier edits: only the object itself is left
+                if o["kind"] == "var":
+                    sub = 0 if kind == "retype" else None
+                elif not o["members"]:
+                    sub = None
+                elif kind == "retype" or (o["kind"] == "record" and draw(st.booleans())):
+                    sub = draw(st.sampled_from([m["sub"] for m in o["members"]]))
+                else:
+                    sub = None
+                e = {"op": "od", "edit": kind, "index": o["index"], "sub": sub}
+                if kind == "retype":
+                    e["dt"] = draw(dt_st)
+            spec = apply_edit(spec, e)
+            ops.append(e)
+            continue
+        index = draw(st.sampled_from(pool))
+        sub = draw(st.sampled_from(subs))
+        declared = _decl_maps(spec)[0].get((index, sub)) is not None
+        top = any(o["index"] == index and o["kind"] == "var" for o in spec)
+        n = draw(st.one_of(st.integers(0, 12), lengths(max_len)))
+        data = draw(st.binary(min_size=n, max_size=n)) if n <= 64 and draw(st.booleans()) else \
+            _payload(n, draw(st.integers(0, 255)))
+        if draw(st.integers(0, 2)):
+            x = {"op": "ul", "index": index, "sub": sub, "data": data, "style": draw(st.sampled_from(styles_for(n)))}
+            x["route"] = draw(st.sampled_from(["upload", "upload", "open"] + (["var_data"] * 2 if declared else [])))
+            if x["route"] == "open":
+                x["buffering"] = draw(st.sampled_from(BUFFERINGS))
+                x["reads"] = None
+        else:
+            x = {"op": "dl", "index": index, "sub": sub, "data": data}
+            x["route"] = draw(st.sampled_from(["download", "open"] + (["var_data"] if declared else [])))
+            if x["route"] == "download":
+                x["force"] = draw(st.booleans())
+            elif x["route"] == "open":
+                x["size_decl"] = draw(st.booleans())
+                x["force"] = False
+                x["buffering"] = draw(st.sampled_from(BUFFERINGS))
+                x["chunks"] = draw(chunking(n))
+        if x["route"] == "var_data":
+            x["toplevel"] = top
+        ops.append(x)
+    return {"od": od0, "xfers": ops}
+
+
 def search(ctx):
     thorough = ctx.tier == "thorough"
+    # (small; first, so that a loaded machine's budget cut never removes it)
+    ctx.enumerate(reconf_cases(full=thorough),
+                  "upload - dictionary edit (retype / add_object / add_member / del) - upload at one address: every "
+                  "pair of declarations that cut differently x VAR / record member / array member / array template")
     ctx.enumerate(enum_cases(full=thorough),
                   "every payload length 0..64 x every route/style/buffering class; x addresses with an "
                   "undeclared sub-index under a declared index; x 'empty last segment' server style; x string "
@@ -792,5 +1086,7 @@ def search(ctx):
     # content classes: odd salts), alternating so that the cooperative budget cuts both alike
     max_len = 10000 if thorough else 2000
     for part in range(5 if thorough else 1):
+        # a third (small) stream first: histories with dictionary edits between transfers at a few repeating addresses
+        ctx.hypothesis(reconf_history(300), 2000 if thorough else 800, salt=100 + part)
         ctx.hypothesis(history(max_len), 3000 if thorough else 1500, salt=2 * part)
         ctx.hypothesis(history(max_len, wide=True), 3000 if thorough else 1500, salt=2 * part + 1)
